@@ -105,6 +105,7 @@ def mk_np():
 
 def build(U, with_dataK=False):
     """the classes FFT_R_to_k and Rvectors (and optionally Data_K_R) assembled from the extracted real methods"""
+    U.assume_ensures = False          # the clauses of these units are independent statements about different outputs
     NP = mk_np()
     g_ut = dict(np=NP, EINSUM_PATH_CACHE={})
     cached_einsum = U.fn(F_UT, "cached_einsum", globs=g_ut, model=False, rewrite_comps=False)
